@@ -1110,8 +1110,14 @@ class HTTPSConnectionPool(HTTPConnectionPool):
         if conn.is_closed:
             conn.connect()
 
-        # TODO revise this, see https://github.com/urllib3/urllib3/issues/2791
-        if not conn.is_verified and not conn.proxy_is_verified:
+        # A forwarded request travels over the TLS connection to the proxy only
+        # (``is_verified`` is always False then); in every other case, a tunnel
+        # through an HTTPS proxy included, it is the origin's certificate that counts.
+        if getattr(conn, "proxy_is_forwarding", False):
+            verified = conn.proxy_is_verified
+        else:
+            verified = conn.is_verified
+        if not verified:
             warnings.warn(
                 (
                     f"Unverified HTTPS request is being made to host '{conn.host}'. "
